@@ -94,7 +94,7 @@ func checkCompositeLiteral(
 
 	typeName := named.Obj().Name()
 	pkg := named.Obj().Pkg()
-	if pkg == nil {
+	if pkg == nil || !util.IsPackageLevelType(named) {
 		return nil
 	}
 
@@ -154,7 +154,7 @@ func checkNewCall(
 
 	typeName := named.Obj().Name()
 	pkg := named.Obj().Pkg()
-	if pkg == nil {
+	if pkg == nil || !util.IsPackageLevelType(named) {
 		return nil
 	}
 
@@ -226,7 +226,7 @@ func checkVarDeclaration(
 
 			typeName := named.Obj().Name()
 			pkg := named.Obj().Pkg()
-			if pkg == nil {
+			if pkg == nil || !util.IsPackageLevelType(named) {
 				continue
 			}
 
